@@ -1,4 +1,268 @@
-//! harness family c06img — stub until the family is built
+//! harness family c06img (property C06: a saved image reloads to the same volume) — volumes whose IMAGE METADATA
+//! was edited through the metadata interface before the save.
+//!
+//! Per case: a volume with a file system and files on a container that has metadata (TD0, IMD, WOZ1, WOZ2, 2MG);
+//! 1-4 edits with `put_metadata` (TD0 notes of other lengths — also none before —, TD0 header bytes, the read-only
+//! time stamp, IMD comment / header, WOZ INFO and META keys, 2MG comment / creator / flags); then `to_bytes` and
+//! `create_fs_from_bytestream` with and without the extension hint: same file system, image type, disk kind,
+//! catalog tree, every file (all FileImage fields and chunks), free space; the edited keys read back; the metadata
+//! of the reloaded image equals that of the saved object; the reloaded image and the saved object both serialise
+//! to the same bytes again.  Half of the TD0 / IMD cases are also run through the Lean object model
+//! (`c06img td0seq|imdseq`: load the bytes saved BEFORE the edits, apply the notes / comment edits, save): the
+//! bytes the real code saves after the edits must be the model's.
 use crate::util::*;
+use super::fs::{make_volume, Fs, VolCfg};
+use a2kit::fs::DiskFS;
+use a2kit::img::{names, DiskKind};
 
-pub fn run(ctx: &mut Ctx) { ctx.out.case(b"c06img-stub", false); }
+fn cfgs(thorough: bool) -> Vec<VolCfg> {
+    let mut v = Vec::new();
+    let mut add = |fs, container, kind, kind_name| v.push(VolCfg { fs, container, kind, kind_name, flat: false });
+    add(Fs::Fat, "td0", DiskKind::D35(names::IBM_720), "ibm-720");
+    add(Fs::Fat, "td0", DiskKind::D525(names::IBM_DSDD_9), "ibm-dsdd-9");
+    add(Fs::Cpm2, "td0", names::OSBORNE1_SD_KIND, "osborne-sd");
+    add(Fs::Cpm3, "td0", names::AMSTRAD_SS_KIND, "amstrad-ss");
+    add(Fs::Fat, "imd", DiskKind::D525(names::IBM_DSDD_9), "ibm-dsdd-9");
+    add(Fs::Cpm2, "imd", names::OSBORNE1_DD_KIND, "osborne-dd");
+    add(Fs::Cpm2, "imd", names::KAYPRO4_KIND, "kaypro4");
+    add(Fs::Dos33, "woz1", names::A2_DOS33_KIND, "a2-525-16");
+    add(Fs::Dos33, "woz2", names::A2_DOS33_KIND, "a2-525-16");
+    add(Fs::Prodos, "woz2", names::A2_DOS33_KIND, "a2-525-16");
+    add(Fs::Pascal, "woz2", names::A2_DOS33_KIND, "a2-525-16");
+    add(Fs::Prodos, "2mg-po", names::A2_800_KIND, "a2-35-800");
+    add(Fs::Prodos, "2mg-do", names::A2_DOS33_KIND, "a2-525-16");
+    add(Fs::Dos33, "2mg-do", names::A2_DOS33_KIND, "a2-525-16");
+    if thorough {
+        add(Fs::Fat, "td0", DiskKind::D525(names::IBM_SSDD_9), "ibm-ssdd-9");
+        add(Fs::Fat, "td0", DiskKind::D35(names::IBM_1440), "ibm-1440");
+        add(Fs::Cpm2, "td0", names::KAYPROII_KIND, "kayproii");
+        add(Fs::Cpm2, "td0", names::OSBORNE1_DD_KIND, "osborne-dd");
+        add(Fs::Fat, "imd", DiskKind::D35(names::IBM_720), "ibm-720");
+        add(Fs::Cpm3, "imd", names::AMSTRAD_SS_KIND, "amstrad-ss");
+        add(Fs::Cpm2, "imd", names::NABU_CPM_KIND, "nabu");
+        add(Fs::Dos32, "woz1", names::A2_DOS32_KIND, "a2-525-13");
+        add(Fs::Dos32, "woz2", names::A2_DOS32_KIND, "a2-525-13");
+        add(Fs::Prodos, "woz2", names::A2_800_KIND, "a2-35-800");
+        add(Fs::Prodos, "woz1", names::A2_DOS33_KIND, "a2-525-16");
+        add(Fs::Dos33, "2mg-nib", names::A2_DOS33_KIND, "a2-525-16");
+        add(Fs::Cpm2, "woz2", names::A2_DOS33_KIND, "a2-525-16");
+    }
+    v
+}
+
+fn site(p: &str) -> String {
+    let s = p.split(" [").next().unwrap_or(p);
+    let s = match s.find("src/") { Some(i) => &s[i..], None => s };
+    s.split(':').next().unwrap_or(s).to_string()
+}
+
+fn file_name(fs: Fs, k: usize, rng: &mut Rng) -> String {
+    let stem = format!("{}{}", rng.pick(&["DATA", "FILE", "REPORT", "A", "LONGNAME"]), k);
+    match fs { Fs::Dos33 | Fs::Dos32 | Fs::Prodos => stem, Fs::Pascal => format!("{}.DATA", stem), _ => format!("{}.BIN", &stem[..stem.len().min(8)]) }
+}
+
+/// everything the property lists, as one comparable text
+fn snapshot(d: &mut Box<dyn DiskFS>, files: &[String]) -> Result<Vec<(String, String)>, String> {
+    let mut v: Vec<(String, String)> = Vec::new();
+    let st = d.stat().map_err(|e| format!("stat: {}", e))?;
+    v.push(("file-system".into(), st.fs_name.clone()));
+    v.push(("free-space".into(), format!("{} of {}..{} x {}", st.free_blocks, st.block_beg, st.block_end, st.block_size)));
+    v.push(("label".into(), st.label.clone()));
+    v.push(("image-type".into(), d.get_img().what_am_i().to_string()));
+    v.push(("disk-kind".into(), d.get_img().kind().to_string()));
+    v.push(("catalog-tree".into(), d.tree(true, None).map_err(|e| format!("tree: {}", e))?));
+    for f in files {
+        let g = d.get(f).map_err(|e| format!("get {}: {}", f, e))?;
+        let mut keys: Vec<&usize> = g.chunks.keys().collect();
+        keys.sort();
+        let mut h: u64 = 0xcbf29ce484222325;
+        for k in keys { h = (h ^ *k as u64).wrapping_mul(0x100000001b3); h = (h ^ fnv(&g.chunks[k])).wrapping_mul(0x100000001b3); }
+        v.push((format!("file-contents {}", f), format!("chunk_len={} chunks={} hash={:016x} eof={} type={} aux={} access={} created={} modified={} version={}/{}", g.chunk_len, g.chunks.len(), h,
+            hx(&g.eof), hx(&g.fs_type), hx(&g.aux), hx(&g.access), hx(&g.created), hx(&g.modified), hx(&g.version), hx(&g.min_version))));
+    }
+    Ok(v)
+}
+
+fn ext_of(container: &str) -> &'static str {
+    match container { "td0" => "td0", "imd" => "imd", "woz1" | "woz2" => "woz", _ => "2mg" }
+}
+
+/// keys whose value decides how the bytes are interpreted as a disk (number of heads, drive type, recording mode,
+/// block count): changing them is changing the disk, not its description — they are re-put with the value they have
+fn structural(path: &[String]) -> bool {
+    let p: Vec<&str> = path.iter().map(|s| s.as_str()).filter(|s| *s != "_raw").collect();
+    matches!(p.as_slice(), ["td0", "header", "sides"] | ["td0", "header", "drive_type"] | ["td0", "header", "data_rate"] | ["td0", "header", "stepping"] | ["2mg", "header", "blocks"])
+}
+
+fn notes_text(rng: &mut Rng) -> String {
+    let base = ["Backup of the accounting diskette\nmade from drive B:\nverified twice", "", "x", "disk 2", "ünïcödé 日本語", "two\r\nlines",
+                "a much longer text that certainly does not have the length of the comment the image was created with; "];
+    let mut s = rng.pick(&base[..]).to_string();
+    if rng.chance(25) { let k = 2 + rng.below(5); s = s.repeat(k); }
+    s
+}
+
+fn one_case(ctx: &mut Ctx, idx: usize, cfg: &VolCfg, rng: &mut Rng) {
+    let label = format!("{}/{}/{}", format!("{:?}", cfg.fs).to_lowercase(), cfg.container, cfg.kind_name);
+    let mk_sig = |wp: bool, what: &str| if wp { format!("c06img/{}/write-protected/{}", cfg.container, what) } else { format!("c06img/{}/{}", cfg.container, what) };
+    let sig = |what: &str| mk_sig(false, what);
+    let mut desc = format!("idx={} cfg={} ", idx, label);
+    let out = &mut ctx.out;
+    let mut disk = match guarded(|| make_volume(cfg)) {
+        Ok(Ok(d)) => d,
+        Ok(Err(e)) => { out.oracle(false, "volume-created", &sig("volume-not-created"), &format!("{} err={}", desc, e)); return; }
+        Err(p) => { out.oracle(false, "volume-created", &sig(&format!("create-panic:{}", site(&p))), &format!("{} panic={}", desc, p)); return; }
+    };
+    // files (and a directory where the file system has them)
+    let mut files: Vec<String> = Vec::new();
+    let dir = if matches!(cfg.fs, Fs::Fat | Fs::Prodos) && rng.chance(60) { if guarded(|| disk.create("DIR1")).map(|r| r.is_ok()).unwrap_or(false) { Some("DIR1") } else { None } } else { None };
+    let nfiles = 1 + rng.below(4);
+    for k in 0..nfiles {
+        let name = file_name(cfg.fs, k, rng);
+        let path = match dir { Some(d) if rng.chance(50) => format!("{}/{}", d, name), _ => name };
+        let len = *rng.pick(&[1usize, 100, 255, 256, 257, 1000, 3000, 5000, 9000]) + rng.below(50);
+        let dat = gen_data(rng, len).0;
+        match guarded(|| disk.bsave(&path, &dat, Some(0x2000), None).map_err(|e| e.to_string())) {
+            Ok(Ok(_)) => { desc += &format!("bsave {}:{} ", path, len); files.push(path); }
+            Ok(Err(_)) => {}
+            Err(p) => { out.oracle(false, "no-panic", &sig(&format!("bsave-panic:{}", site(&p))), &format!("{} panic={}", desc, p)); return; }
+        }
+    }
+    let typ = disk.get_img().what_am_i().to_string();
+    let tie = matches!(cfg.container, "td0" | "imd") && rng.chance(50);
+    // tie mode: the bytes before the edits are the model's starting point
+    let before: Option<Vec<u8>> = if tie { guarded(|| disk.get_img().to_bytes()).ok().and_then(|b| if cfg.container == "td0" { retrocompressor::td0::expand_slice(&b).ok() } else { Some(b) }) } else { None };
+    let mut mops: Vec<String> = Vec::new();
+    let mut mans: Vec<String> = vec!["load:ok".into()];
+    // metadata edits
+    let nedits = 1 + rng.below(4);
+    let mut edited: Vec<(Vec<String>, String)> = Vec::new();
+    // a 2MG whose lock bit was set by an edit is a write protected volume: reading it, saving it and reloading it must
+    // still work; failures of that kind get their own signature
+    let mut wp = false;
+    for _ in 0..nedits {
+        let meta = match guarded(|| disk.get_img().get_metadata(None)) { Ok(m) => m, Err(p) => { out.oracle(false, "no-panic", &mk_sig(wp, &format!("get_img-panic:{}", site(&p))), &format!("{} panic={}", desc, p)); return; } };
+        let lv = super::c09::leaves(&meta);
+        let (path, val): (Vec<String>, String) = if cfg.container == "td0" && (tie || rng.chance(60)) {
+            (vec!["td0".into(), "comment".into(), "notes".into()], notes_text(rng))
+        } else if cfg.container == "imd" && (tie || rng.chance(60)) {
+            (vec!["imd".into(), "comment".into()], notes_text(rng))
+        } else {
+            let (p, v, class) = super::c09::candidate(&typ, &lv, rng);
+            if class == "no-leaf" { continue; }
+            if structural(&p) { match super::c09::lookup(&meta, &p) { Some(old) => (p, old), None => continue } } else { (p, v) }
+        };
+        let pstr = path.join("/");
+        let jv = json::JsonValue::String(val.clone());
+        match guarded(|| disk.get_img().put_metadata(&path, &jv).map_err(|e| e.to_string())) {
+            Err(p) => { out.oracle(false, "no-panic", &sig(&format!("put_metadata-panic:{}", site(&p))), &format!("{} put /{}={:?} panic={}", desc, pstr, val, p)); return; }
+            Ok(Err(_)) => { desc += &format!("put /{}={:?}=>refused ", pstr, val); out.count("c06img:edit-refused"); if tie { mops.push(edit_op(cfg.container, &val, &disk_stamp(&mut disk))); mans.push("refused".into()); } }
+            Ok(Ok(())) => {
+                desc += &format!("put /{}={:?} ", pstr, val);
+                out.count(&format!("c06img:edit:{}", path.iter().filter(|s| *s != "_raw").take(3).cloned().collect::<Vec<_>>().join(".")));
+                if tie { mops.push(edit_op(cfg.container, &val, &disk_stamp(&mut disk))); mans.push("ok".into()); }
+                if path.iter().map(|s| s.as_str()).filter(|s| *s != "_raw").collect::<Vec<_>>() == ["2mg", "header", "flags"] { wp = hex::decode(&val).map(|b| b.len() == 4 && b[3] > 127).unwrap_or(false); }
+                if !super::c09::is_ro(&path) { edited.retain(|(p, _)| *p != path); edited.push((path.clone(), super::c09::normal(&path, &val))); }
+                // an edit may delete a WOZ2 META key (empty value)
+            }
+        }
+    }
+    let sig = |what: &str| mk_sig(wp, what);
+    if wp { out.count("c06img:write-protected-2mg"); }
+    let snap0 = match guarded(|| snapshot(&mut disk, &files)) {
+        Ok(Ok(s)) => s,
+        Ok(Err(e)) => { out.oracle(false, "volume-readable", &sig("volume-unreadable-before-save"), &format!("{} {}", desc, e)); return; }
+        Err(p) => { out.oracle(false, "no-panic", &sig(&format!("snapshot-panic:{}", site(&p))), &format!("{} panic={}", desc, p)); return; }
+    };
+    let b1 = match guarded(|| disk.get_img().to_bytes()) { Ok(b) => b, Err(p) => { out.oracle(false, "no-panic", &sig(&format!("to_bytes-panic:{}", site(&p))), &format!("{} panic={}", desc, p)); return; } };
+    let meta1 = match guarded(|| disk.get_img().get_metadata(None)) { Ok(m) => m, Err(p) => { out.oracle(false, "no-panic", &sig(&format!("get_img-panic:{}", site(&p))), &format!("{} panic={}", desc, p)); return; } };
+    let mut fails: Vec<(String, String, String)> = Vec::new();
+    // what was put is what the object shows (WOZ2 META deletion: an empty value removes the key)
+    for (p, want) in &edited {
+        let got = super::c09::lookup(&meta1, p);
+        let deleted = want.is_empty() && p.len() > 1 && p[1] == "meta";
+        if !(got.as_deref() == Some(want.as_str()) || (deleted && got.as_deref().unwrap_or("") == "")) { fails.push(("metadata-put-then-get".into(), sig("metadata-not-read-back-before-save"), format!("/{} want {:?} got {:?}", p.join("/"), want, got))); }
+    }
+    for hint in [Some(ext_of(cfg.container)), None] {
+        let hs = hint.unwrap_or("none");
+        let mut d2 = match guarded(|| a2kit::create_fs_from_bytestream(&b1, hint).map_err(|e| e.to_string())) {
+            Ok(Ok(d)) => d,
+            Ok(Err(e)) => { fails.push(("saved-image-reloads".into(), sig("reload-refused"), format!("hint={} err={}", hs, e))); continue; }
+            Err(p) => { fails.push(("saved-image-reloads".into(), sig(&format!("reload-panic:{}", site(&p))), format!("hint={} panic={}", hs, p))); continue; }
+        };
+        match guarded(|| snapshot(&mut d2, &files)) {
+            Ok(Ok(s2)) => {
+                for ((k, a), (_, b)) in snap0.iter().zip(s2.iter()) {
+                    // "wherever the format records it": IMD does not record the package (3 / 3.5 / 5.25 / 8 inch) — the track
+                    // layout part of the kind is compared; 2MG around a sector dump reports the kind of the dump (a size)
+                    let lay = |s: &str| s.split(" inch ").last().unwrap_or(s).to_string();
+                    let same = if k == "disk-kind" { match cfg.container { "imd" => lay(a) == lay(b), "2mg-do" | "2mg-po" => true, _ => a == b } } else { a == b };
+                    if !same { fails.push(("reloaded-volume-same".into(), sig(&format!("{}-differs", k.split(' ').next().unwrap_or(k))), format!("hint={} {}: before {:?} after {:?}", hs, k, a.chars().take(200).collect::<String>(), b.chars().take(200).collect::<String>()))); }
+                }
+                if s2.len() != snap0.len() { fails.push(("reloaded-volume-same".into(), sig("snapshot-size-differs"), format!("hint={}", hs))); }
+            }
+            Ok(Err(e)) => fails.push(("reloaded-volume-same".into(), sig("volume-unreadable-after-reload"), format!("hint={} {}", hs, e))),
+            Err(p) => { fails.push(("reloaded-volume-same".into(), sig(&format!("reloaded-volume-panic:{}", site(&p))), format!("hint={} panic={}", hs, p))); continue; }
+        }
+        let meta2 = d2.get_img().get_metadata(None);
+        if meta2 != meta1 { fails.push(("metadata-after-reload".into(), sig("metadata-differs-after-reload"), format!("hint={} saved object {} reloaded {}", hs, meta1.chars().take(300).collect::<String>(), meta2.chars().take(300).collect::<String>()))); }
+        for (p, want) in &edited {
+            let got = super::c09::lookup(&meta2, p);
+            let deleted = want.is_empty() && p.len() > 1 && p[1] == "meta";
+            if !(got.as_deref() == Some(want.as_str()) || (deleted && got.as_deref().unwrap_or("") == "")) { fails.push(("metadata-after-reload".into(), sig("edited-key-not-read-back-after-reload"), format!("hint={} /{} want {:?} got {:?}", hs, p.join("/"), want, got))); }
+        }
+        match guarded(|| d2.get_img().to_bytes()) {
+            Ok(b2) => if b2 != b1 { fails.push(("reserialize-identical".into(), sig("reloaded-image-serialises-differently"), format!("hint={} {} vs {} bytes, first difference at {:?}", hs, b1.len(), b2.len(), b1.iter().zip(b2.iter()).position(|(a, b)| a != b)))); },
+            Err(p) => fails.push(("reserialize-identical".into(), sig(&format!("reserialize-panic:{}", site(&p))), p)),
+        }
+    }
+    // the saved object serialises identically again
+    match guarded(|| disk.get_img().to_bytes()) {
+        Ok(b3) => if b3 != b1 { fails.push(("second-to_bytes-identical".into(), sig("second-to_bytes-differs"), format!("{} vs {} bytes, first difference at {:?}", b1.len(), b3.len(), b1.iter().zip(b3.iter()).position(|(a, b)| a != b)))); },
+        Err(p) => fails.push(("second-to_bytes-identical".into(), sig(&format!("to_bytes-panic:{}", site(&p))), p)),
+    }
+    // model tie
+    if let Some(b0) = before {
+        let saved = if cfg.container == "td0" { retrocompressor::td0::expand_slice(&b1).ok().map(|x| { let e = super::c08::mix::td_end(&x).unwrap_or(x.len()); x[..e].to_vec() }) } else { Some(b1.clone()) };
+        if let Some(sv) = saved {
+            mops.push("mg".into());
+            let leafp: Vec<String> = if cfg.container == "td0" { vec!["td0".into(), "comment".into(), "notes".into()] } else { vec!["imd".into(), "comment".into()] };
+            mans.push(match super::c09::lookup(&meta1, &leafp) { Some(s) => format!("mg:{}", hx(s.as_bytes())), None => "mg:none".into() });
+            mops.push("sv".into());
+            mans.push(format!("sv:{}:{}", sv.len(), fnv(&sv)));
+            let b0 = if cfg.container == "td0" { let e = super::c08::mix::td_end(&b0).unwrap_or(b0.len()); b0[..e].to_vec() } else { b0 };
+            out.q(&format!("c06img {} {} {}", if cfg.container == "td0" { "td0seq" } else { "imdseq" }, hx(&b0), mops.join(";")), &mans.join(";"));
+            out.count("c06img:model-tie");
+        }
+    }
+    if fails.is_empty() { out.oracle(true, "edited-image-reloads", "-", &format!("idx={}", idx)); }
+    let mut seen = std::collections::BTreeSet::new();
+    for (o, s, w) in &fails { if seen.insert((o.clone(), s.clone())) { out.oracle(false, o, s, &format!("{}:: {}", desc, w)); } }
+    out.sample(&desc);
+    out.count(&format!("c06img:cfg:{}", label));
+    out.case(desc.as_bytes(), !files.is_empty() && !edited.is_empty());
+}
+
+/// the time stamp the comment block shows now (a block created by the edit carries the current time)
+fn disk_stamp(disk: &mut Box<dyn DiskFS>) -> Vec<u8> {
+    let meta = disk.get_img().get_metadata(None);
+    super::c09::lookup(&meta, &["td0".to_string(), "comment".to_string(), "timestamp".to_string()]).and_then(|s| hex::decode(s).ok()).unwrap_or(vec![0; 6])
+}
+
+fn edit_op(container: &str, val: &str, stamp: &[u8]) -> String {
+    if container == "td0" { format!("nt:{}:{}", hx(stamp), hx(val.as_bytes())) } else { format!("cm:{}", hx(val.as_bytes())) }
+}
+
+pub fn run(ctx: &mut Ctx) {
+    let mut rng = Rng::new(ctx.seed);
+    let cfgs = cfgs(ctx.tier_thorough);
+    let rounds = ctx.n(8, 40);
+    for round in 0..rounds {
+        for (ci, cfg) in cfgs.iter().enumerate() {
+            let idx = round * cfgs.len() + ci;
+            let mut r = rng.fork(idx as u64);
+            if !ctx.out.wants(idx) { continue; }
+            if let Err(p) = guarded(|| one_case(ctx, idx, cfg, &mut r)) { ctx.out.oracle(false, "case-completes", &format!("c06img/case-panic:{}", site(&p)), &format!("idx={} panic={}", idx, p)); }
+        }
+    }
+}
